@@ -140,6 +140,16 @@ def check_ubi(sh, mods, ubi, cell, U0, eps, case):
         for nm in ("unitcell", "B", "U", "UB", "mt", "rmt") + (("Rod",) if ang < 179.0 else ()):
             if not close(getattr(g2, nm), getattr(g, nm), 1e-12):
                 return bad("grain.%s:changes-when-a-reference-unit-cell-is-attached" % nm, {"got": getattr(g2, nm), "expected": getattr(g, nm), "attached": when + " first read"})
+    # the matrix in other memory layouts and container types (Fortran order, a view of a larger array, a nested list): same grain
+    big = np.zeros((3, 6)); big[:, ::2] = ubi
+    for lname, arr in (("fortran-ordered", np.asfortranarray(ubi)), ("strided view", big[:, ::2]), ("nested list", ubi.tolist())):
+        g3 = grain_m.grain(arr)
+        for nm in ("ubi", "unitcell", "B", "U", "UB", "mt", "rmt"):
+            if not close(getattr(g3, nm), getattr(g, nm), 1e-12):
+                return bad("grain.%s:depends-on-the-memory-layout-of-the-matrix-given" % nm, {"layout": lname})
+        for fn_name, fn in (("ubitocellpars", indexing.ubitocellpars), ("ubitoU", indexing.ubitoU), ("ubitoB", indexing.ubitoB)):
+            if not isinstance(arr, list) and not close(fn(arr), fn(ubi), 1e-12):
+                return bad("indexing.%s:depends-on-the-memory-layout" % fn_name, {"layout": lname})
     # unitcell class
     uc = ucm.unitcell(ucell)
     if not close(uc.B, Bo): return bad("unitcell.B", {"got": uc.B, "expected": Bo})
